@@ -69,6 +69,9 @@ def _worker(a):
             inserts[p] = st
         if not inserts:
             continue
+        if "sample" not in res:
+            res["sample"] = {"services": cfg.services, "base_history_head": [proto.render(e) for e in base_events[:25]],
+                             "stray_lines_inserted_before_step": {str(p): proto.render(st) for p, st in sorted(inserts.items())}}
         bad = compare_run(b, cfg, base, base_events, inserts, res["stats"], views)
         if bad:
             # bisect to a single stray
@@ -225,6 +228,8 @@ def run(chk, tier, scale=1.0):
     results += vcommon.pmap(_slot_worker, [dict(build=b, seed=chk.seed * 1000 + k) for k in range(int((24 if tier == "quick" else 400) * scale))])
     for r in results:
         chk.add_case(r["hash"], r["nontrivial"])
+        if r.get("sample"):
+            chk.sample(r["sample"], limit=2)
         kinds = r["stats"].pop("stray_kinds")
         chk.merge_counts(r["stats"])
         for k, v in kinds.items():
